@@ -172,11 +172,19 @@ impl<Body> AmendedRequest<Body> {
             return Err(Error::BadLocationHeader(location.to_string()));
         }
 
-        let url = match Url::parse(&self.uri().to_string()) {
-            Ok(base) => base.join(location),
-            // The request uri is not absolute (origin-form with a host header):
+        let uri = self.uri();
+        let base = if uri.scheme().is_some() && uri.authority().is_some() {
+            Url::parse(&uri.to_string()).ok()
+        } else {
+            // The request uri is not absolute (origin-form with a host header, or authority-form,
+            // where "http:80" must not be read as a url with the scheme http):
             // only an absolute location can be resolved without a base.
-            Err(_) => Url::parse(location),
+            None
+        };
+
+        let url = match base {
+            Some(base) => base.join(location),
+            None => Url::parse(location),
         }
         .map_err(|_| Error::BadLocationHeader(location.to_string()))?;
 
